@@ -20,6 +20,7 @@ import (
 	"hash"
 	"math"
 	"os"
+	"runtime/debug"
 	"sort"
 	"strings"
 	"sync"
@@ -668,6 +669,9 @@ func runSF(c SFCase) pbt.Verdict {
 }
 
 func TestProp(t *testing.T) {
+	// The code under test allocates several small objects per score evaluation; a larger GC target
+	// only trades a few MB of heap for less collector work.
+	debug.SetGCPercent(400)
 	pbt.Main(t, pbt.Spec{
 		ID: "C22",
 		Rule: "part order: generated node set (1-16 distinct labels, weights 1-1000 or all equal), hash/score pair in {murmur3,sha256}x{UInt64ToFloat64,BigIntToFloat64} (murmur3+UInt64 half of the cases), " +
